@@ -2,6 +2,7 @@
 //! verif-harness: runs the real aiken/uplc code next to the Lean models.
 //!   verif-harness <sub-command> [--seed N] [--tier quick|thorough] [--out file] [--replay file]
 mod c03;
+mod c05;
 mod c15;
 mod cek;
 mod gen;
@@ -53,6 +54,7 @@ fn main() {
     let rep = match sub.as_str() {
         "c15-names" => c15::names(&ctx),
         "c03-cek" => c03::run(&ctx),
+        "c05-budget" => c05::run(&ctx),
         other => {
             eprintln!("unknown sub-command {other}");
             std::process::exit(2);
